@@ -6,15 +6,16 @@ From Coq Require Import NArith List.
 From Coq Require Extraction.
 From Coq Require Import ExtrOcamlBasic.
 From V Require Import Base.Res Base.Word Base.MachInt gen.GenConsts gen.GenFormulas Model.RsHash
-  Spec.Compress Spec.Tree Spec.Blake3 Model.Portable Model.Platform Model.RsChunk Model.RsWide Model.RsHasher Model.RsXof Model.RsIo Model.RsDebug Model.RsGuts Model.Machine Model.B3sum Model.RefImpl.
+  Spec.Compress Spec.Tree Spec.Blake3 Model.Portable Model.Platform Model.RsChunk Model.RsWide Model.RsHasher Model.RsXof Model.RsIo Model.RsDebug Model.RsGuts Model.Machine Model.SpecMachine Model.B3sum Model.RefImpl Model.CHasher.
 
 
 
 Extraction "model.ml"
   Res.debug_only RsHash.to_hex RsHash.from_hex RsHash.from_slice RsHash.constant_time_eq
-  RefImpl.ref_run Machine.run_case RsGuts.guts_new RsGuts.guts_feed RsGuts.guts_debug RsGuts.guts_finalize RsGuts.guts_parent_cv Platform.sim_platform RsWide.rs_hash RsWide.rs_keyed_hash RsWide.rs_derive_key
+  RefImpl.ref_run SpecMachine.spec_run_case Machine.run_case RsGuts.guts_new RsGuts.guts_feed RsGuts.guts_debug RsGuts.guts_finalize RsGuts.guts_parent_cv Platform.sim_platform RsWide.rs_hash RsWide.rs_keyed_hash RsWide.rs_derive_key
   Blake3.b3_hash Blake3.b3_keyed_hash Blake3.b3_derive_key Blake3.b3_xof_mode Blake3.b3_hash_mode
   B3sum.parse_check_line B3sum.filepath_to_string B3sum.print_line B3sum.print_body B3sum.unescape B3sum.check_for_invalid_characters
   B3sum.hex_half_byte B3sum.utf8_encode B3sum.utf8_lossy B3sum.hash_one_input B3sum.run_hash B3sum.b3sum_check B3sum.exit_status B3sum.asis_cfg B3sum.fixed_cfg B3sum.read_key_from_stdin B3sum.hex_of_bytes
   Portable.compress_in_place Portable.compress_xof Portable.hash_many Platform.portable_xof_many Word.words_of_bytes Word.bytes_of_words
-  GenFormulas.rs_left_subtree_len GenFormulas.rs_max_subtree_len GenFormulas.rs_largest_power_of_two_leq.
+  GenFormulas.rs_left_subtree_len GenFormulas.rs_max_subtree_len GenFormulas.rs_largest_power_of_two_leq
+  CHasher.c_run_case CHasher.c_platform.
